@@ -91,7 +91,8 @@ PROPS = {
         unit("c07", "proxy", PROXY_COMMON + ["proxy/c07_test.go"], "^TestVerifC07(Request|Response|Wire|History)"),
         unit("c07-sched", "proxy", PROXY_COMMON + ["proxy/c07_sched_test.go"], "^TestVerifC07Sched", engines=SCHED, race=True, sched_env={"GOMAXPROCS": "1"}, shards={"quick": 1, "thorough": 8},
              rewrite=ROUTE_RW + [{"files": ["proxy/http_proxy.go", "proxy/http_handler.go", "proxy/http_headers.go"], "opts": ["-imports", "-stmt"]}]),
-    ], layers={"quick": ["c07-request", "c07-response", "c07-wire", "c07-history", "c07-sched"], "thorough": ["c07-request", "c07-response", "c07-wire", "c07-history", "c07-sched"]}),
+        unit("c07-main", ".", MAIN_COMMON + ["main/c19_test.go", "main/c07_main_test.go"], "^TestVerifC07Main", engines=["vhook"], rewrite=[{"files": ["transport/transport.go"], "opts": ["-sel", "net.Dialer=vhook.Dialer"]}]),
+    ], layers={"quick": ["c07-request", "c07-response", "c07-wire", "c07-history", "c07-sched", "c07-main"], "thorough": ["c07-request", "c07-response", "c07-wire", "c07-history", "c07-sched", "c07-main"]}),
     "C08": dict(level="exploration", engine="benum",
         technique="bounded-exhaustive product of header configurations x connection kinds x every subset of forged managed headers through the real HTTPProxy (and real plain/TLS listeners for websockets)",
         level_text="Every header-related configuration (72 quick / 144 thorough) x plain/TLS x all 2^8 subsets of client-forged managed headers (+ repeated and lower-case spellings) x Host with/without port x IPv4/IPv6 peer, plus websocket upgrades over real plain and TLS listeners, is served by the real proxy to a recording upstream and checked against the six clauses of the statement.",
